@@ -3,9 +3,9 @@ CONSTANTS
   Clients = {"c1"}
   Forms = {"v4"}
   CCs = {"a", "b"}
-  SVs = {"bare", "good", "bad"}
+  SVs = {"bare"}
   Shorts = {}
-  Protos = {"tcp", "udp"}
+  Protos = {"tcp"}
   Questions = {"fresh"}
   Entries = {"msg", "wire"}
   Exempts = {}
@@ -14,7 +14,7 @@ CONSTANTS
   StoreCap = 1
   EntryBurst = 0
   BigQs = {}
-  MaxOps = 3
+  MaxOps = 2
   MaxPend = 1
   MaxAge = 1
   TickSet = {}
@@ -26,6 +26,7 @@ CONSTANTS
   ReuseEvicted = FALSE
   SharedKey = FALSE
   ChargeBeforeFit = FALSE
+  WireSkipsStore <- MutOn
 SPECIFICATION Spec
 INVARIANTS TypeOK OneChargePerQuestion DropIsSilent ClientWithinBudget NoSharedBucket RememberedIsOwn ExemptNeverLimited
   ReplyCookieIsOwn AnswerCarriesCookie BadCookieSound VerifiedIsFree HandoffOnlyInline SameOutcomeAcrossEntries CookieRemembered
